@@ -7,10 +7,10 @@ CONSTANTS
  Dev = {"badevent", "status", "readerr", "partial", "dedup"}
  TrimOn = "match"
  Defect = "none"
- MaxFeeds = 6
+ MaxFeeds = 5
  MaxDials = 1
  MaxTime = 0
- MaxSubs = 2
+ MaxSubs = 1
  FeedSet <- FramesReorg
  DialSet <- DialOK
  CloseSet <- CloseNone
